@@ -510,3 +510,191 @@ Proof.
     end.
     cbn [negb orb andb both_some fst snd]. reflexivity.
 Qed.
+(* ================================================================ exit points: box, totality *)
+Definition face_side dx dy dz (c : nat) (m : bool) : R :=
+  if m then snd (box_sides dx dy dz c) else fst (box_sides dx dy dz c).
+Definition face_scale dx dy dz (v d : vec3) (c : nat) (m : bool) : R :=
+  (face_side dx dy dz c m - vnth v c) / vnth d c.
+(* a face whose iteration assigns enter_point (behind = true) / exit_point (behind = false) *)
+Definition assigning_face dx dy dz v d (behind : bool) (f : nat * bool) : Prop :=
+  vnth d (fst f) <> 0 /\
+  box_valid dx dy dz (fst f) (line_point v d (face_scale dx dy dz v d (fst f) (snd f))) = true /\
+  Rltb ((if snd f then 1 else -1) * vnth d (fst f)) 0 = behind.
+
+Lemma box_face_assign dx dy dz v d c m st behind :
+  assigning_face dx dy dz v d behind (c, m) ->
+  (if behind then fst (fst (box_face dx dy dz v d c m st)) else snd (fst (box_face dx dy dz v d c m st))) <> None.
+Proof.
+  intros (Hd & Hv & Hs). cbn [fst snd] in *. unfold box_face.
+  destruct (Reqb (vnth d c) 0) eqn:E; [apply Reqb_true in E; contradiction|].
+  cbv zeta. fold (face_side dx dy dz c m). fold (face_scale dx dy dz v d c m).
+  change (vx v + vx d * face_scale dx dy dz v d c m, vy v + vy d * face_scale dx dy dz v d c m, vz v + vz d * face_scale dx dy dz v d c m)
+    with (line_point v d (face_scale dx dy dz v d c m)).
+  rewrite Hv, Hs. destruct behind; cbn [fst snd]; discriminate.
+Qed.
+
+Lemma box_face_keeps dx dy dz v d c m st :
+  (fst st <> None -> fst (fst (box_face dx dy dz v d c m st)) <> None) /\
+  (snd st <> None -> snd (fst (box_face dx dy dz v d c m st)) <> None).
+Proof.
+  unfold box_face. destruct (Reqb (vnth d c) 0); [cbn [fst]; tauto|]. cbv zeta.
+  match goal with |- context [box_valid ?a ?b ?c0 ?e ?p] => destruct (box_valid a b c0 e p) end; [|cbn [fst]; tauto].
+  match goal with |- context [Rltb ?a ?b] => destruct (Rltb a b) end; cbn [fst snd]; split; intro H; try assumption; discriminate.
+Qed.
+
+Lemma box_face_ret dx dy dz v d c m st :
+  snd (box_face dx dy dz v d c m st) = match both_some (fst (box_face dx dy dz v d c m st)) with Some _ => true | None => false end
+  \/ (snd (box_face dx dy dz v d c m st) = false /\ fst (box_face dx dy dz v d c m st) = st).
+Proof.
+  unfold box_face. destruct (Reqb (vnth d c) 0); [right; split; reflexivity|]. left. reflexivity.
+Qed.
+
+Lemma box_loop_total dx dy dz v d : forall faces st,
+  both_some st = None ->
+  (fst st <> None \/ exists f, In f faces /\ assigning_face dx dy dz v d true f) ->
+  (snd st <> None \/ exists f, In f faces /\ assigning_face dx dy dz v d false f) ->
+  box_loop dx dy dz v d faces st <> None.
+Proof.
+  induction faces as [|[c m] rest IH]; intros st Hb He Hx.
+  - exfalso. destruct st as [[a|] [b|]]; cbn in *; try discriminate.
+    + destruct Hx as [Hx|(f & [] & _)]. apply Hx; reflexivity.
+    + destruct He as [He|(f & [] & _)]. apply He; reflexivity.
+    + destruct He as [He|(f & [] & _)]. apply He; reflexivity.
+  - cbn [box_loop].
+    pose proof (box_face_keeps dx dy dz v d c m st) as [K1 K2].
+    pose proof (box_face_ret dx dy dz v d c m st) as R.
+    assert (E1 : fst (fst (box_face dx dy dz v d c m st)) <> None \/ exists f, In f rest /\ assigning_face dx dy dz v d true f).
+    { destruct He as [He|(f & [Hf|Hf] & Ha)]; [left; auto| |right; exists f; auto].
+      left. subst f. apply (box_face_assign dx dy dz v d c m st true Ha). }
+    assert (E2 : snd (fst (box_face dx dy dz v d c m st)) <> None \/ exists f, In f rest /\ assigning_face dx dy dz v d false f).
+    { destruct Hx as [Hx|(f & [Hf|Hf] & Ha)]; [left; auto| |right; exists f; auto].
+      left. subst f. apply (box_face_assign dx dy dz v d c m st false Ha). }
+    destruct (box_face dx dy dz v d c m st) as [st' ret] eqn:E. cbn [fst snd] in *.
+    destruct ret.
+    + destruct R as [R|[R _]]; [|discriminate].
+      destruct (both_some st'); [discriminate|discriminate].
+    + apply IH; try assumption.
+      destruct R as [R|[_ R]]; [destruct (both_some st'); [discriminate|reflexivity]|subst st'; assumption].
+Qed.
+
+(* a maximiser of f among the elements of a finite list that satisfy a decidable predicate *)
+Lemma finite_max (f : nat -> R) (P : nat -> Prop) (Pdec : forall i, P i \/ ~ P i) : forall l,
+  (forall j, In j l -> ~ P j) \/ (exists i, In i l /\ P i /\ forall j, In j l -> P j -> f j <= f i).
+Proof.
+  induction l as [|a r IH]; [left; intros j []|].
+  destruct IH as [IH|(i & Hi & Pi & Hmax)]; destruct (Pdec a) as [Pa|Pa].
+  - right. exists a. split; [left; reflexivity|]. split; [assumption|].
+    intros j [<-|Hj] Pj; [lra|]. exfalso. apply (IH j Hj Pj).
+  - left. intros j [<-|Hj]; auto.
+  - right. destruct (Rle_dec (f a) (f i)).
+    + exists i. split; [right; assumption|]. split; [assumption|]. intros j [<-|Hj] Pj; auto.
+    + exists a. split; [left; reflexivity|]. split; [assumption|]. intros j [<-|Hj] Pj; [lra|].
+      specialize (Hmax j Hj Pj). lra.
+  - right. exists i. split; [right; assumption|]. split; [assumption|]. intros j [<-|Hj] Pj; [contradiction|auto].
+Qed.
+
+Definition enter_m (d : vec3) (i : nat) : bool := Rltb (vnth d i) 0.      (* entering through the max side iff d_i < 0 *)
+Definition exit_m (d : vec3) (i : nat) : bool := negb (Rltb (vnth d i) 0).
+
+Lemma in_012 i : In i [0%nat; 1%nat; 2%nat] <-> (i < 3)%nat.
+Proof. split; [intros [<-|[<-|[<-|[]]]]; lia|intro H; destruct i as [|[|[|i]]]; simpl; auto; lia]. Qed.
+
+Lemma sides_of_inside dx dy dz v i : box_strictly_inside dx dy dz v -> (i < 3)%nat ->
+  fst (box_sides dx dy dz i) < vnth v i < snd (box_sides dx dy dz i).
+Proof. intros H Hi. apply (H i Hi). Qed.
+
+(* the face through which the line enters last (largest negative parameter) is a valid entry *)
+Lemma entering_face_valid dx dy dz v d i :
+  box_strictly_inside dx dy dz v -> (i < 3)%nat -> vnth d i <> 0 ->
+  (forall j, In j [0%nat; 1%nat; 2%nat] -> vnth d j <> 0 ->
+     face_scale dx dy dz v d j (enter_m d j) <= face_scale dx dy dz v d i (enter_m d i)) ->
+  assigning_face dx dy dz v d true (i, enter_m d i).
+Proof.
+  intros Hin Hi Hd Hmax. unfold assigning_face. cbn [fst snd]. split; [assumption|].
+  set (s := face_scale dx dy dz v d i (enter_m d i)).
+  assert (Hsd : forall j, (j < 3)%nat -> vnth d j <> 0 ->
+            face_scale dx dy dz v d j (enter_m d j) * vnth d j = face_side dx dy dz j (enter_m d j) - vnth v j)
+    by (intros j _ Hj; unfold face_scale; field; assumption).
+  assert (Hs : s < 0).
+  { pose proof (Hsd i Hi Hd) as Q. fold s in Q. pose proof (sides_of_inside dx dy dz v i Hin Hi) as [A B].
+    unfold face_side, enter_m in Q. destruct (Rltb (vnth d i) 0) eqn:E.
+    - apply Rltb_true in E. nra.
+    - apply Rltb_false in E. assert (0 < vnth d i) by lra. nra. }
+  split.
+  - unfold box_valid. apply forallb_forall. intros j Hj. apply orb_true_iff.
+    destruct (Nat.eq_dec j i) as [->|Hne]; [left; apply Nat.eqb_refl|right].
+    apply negb_true_iff, orb_false_iff. rewrite Rltb_false, Rgtb_false, vnth_line.
+    pose proof (proj1 (in_012 j) Hj) as Hj3.
+    pose proof (sides_of_inside dx dy dz v j Hin Hj3) as [A B].
+    destruct (Req_dec (vnth d j) 0) as [Z|NZ]; [rewrite Z; lra|].
+    pose proof (Hmax j Hj NZ) as M. fold s in M. pose proof (Hsd j Hj3 NZ) as Q.
+    unfold face_side, enter_m in Q, M. destruct (Rltb (vnth d j) 0) eqn:E.
+    + apply Rltb_true in E. split; nra.
+    + apply Rltb_false in E. assert (0 < vnth d j) by lra. split; nra.
+  - unfold enter_m. destruct (Rltb (vnth d i) 0) eqn:E.
+    + apply Rltb_true in E. apply Rltb_true. lra.
+    + apply Rltb_false in E. apply Rltb_true. lra.
+Qed.
+
+Lemma exiting_face_valid dx dy dz v d i :
+  box_strictly_inside dx dy dz v -> (i < 3)%nat -> vnth d i <> 0 ->
+  (forall j, In j [0%nat; 1%nat; 2%nat] -> vnth d j <> 0 ->
+     - face_scale dx dy dz v d j (exit_m d j) <= - face_scale dx dy dz v d i (exit_m d i)) ->
+  assigning_face dx dy dz v d false (i, exit_m d i).
+Proof.
+  intros Hin Hi Hd Hmax. unfold assigning_face. cbn [fst snd]. split; [assumption|].
+  set (s := face_scale dx dy dz v d i (exit_m d i)).
+  assert (Hsd : forall j, (j < 3)%nat -> vnth d j <> 0 ->
+            face_scale dx dy dz v d j (exit_m d j) * vnth d j = face_side dx dy dz j (exit_m d j) - vnth v j)
+    by (intros j _ Hj; unfold face_scale; field; assumption).
+  assert (Hs : 0 < s).
+  { pose proof (Hsd i Hi Hd) as Q. fold s in Q. pose proof (sides_of_inside dx dy dz v i Hin Hi) as [A B].
+    unfold face_side, exit_m in Q. destruct (Rltb (vnth d i) 0) eqn:E; cbn [negb] in Q.
+    - apply Rltb_true in E. nra.
+    - apply Rltb_false in E. assert (0 < vnth d i) by lra. nra. }
+  split.
+  - unfold box_valid. apply forallb_forall. intros j Hj. apply orb_true_iff.
+    destruct (Nat.eq_dec j i) as [->|Hne]; [left; apply Nat.eqb_refl|right].
+    apply negb_true_iff, orb_false_iff. rewrite Rltb_false, Rgtb_false, vnth_line.
+    pose proof (proj1 (in_012 j) Hj) as Hj3.
+    pose proof (sides_of_inside dx dy dz v j Hin Hj3) as [A B].
+    destruct (Req_dec (vnth d j) 0) as [Z|NZ]; [rewrite Z; lra|].
+    pose proof (Hmax j Hj NZ) as M. fold s in M. pose proof (Hsd j Hj3 NZ) as Q.
+    unfold face_side, exit_m in Q, M. destruct (Rltb (vnth d j) 0) eqn:E; cbn [negb] in Q, M.
+    + apply Rltb_true in E. split; nra.
+    + apply Rltb_false in E. assert (0 < vnth d j) by lra. split; nra.
+  - unfold exit_m. destruct (Rltb (vnth d i) 0) eqn:E; cbn [negb].
+    + apply Rltb_true in E. apply Rltb_false. lra.
+    + apply Rltb_false in E. apply Rltb_false. lra.
+Qed.
+
+Lemma face_in_faces i m : (i < 3)%nat -> In (i, m) box_faces.
+Proof. intro H. destruct i as [|[|[|i]]]; try lia; destruct m; simpl; auto 10. Qed.
+
+(* totality: a vertex strictly inside and a non-zero direction always yield both points *)
+Lemma exit_points_box_total_lemma dx dy dz v d :
+  box_strictly_inside dx dy dz v -> (exists k, (k < 3)%nat /\ vnth d k <> 0) ->
+  box_exit_points dx dy dz v d <> None.
+Proof.
+  intros Hin (k & Hk & Hdk). unfold box_exit_points.
+  assert (Pdec : forall i, vnth d i <> 0 \/ ~ vnth d i <> 0) by (intro i; destruct (Req_dec (vnth d i) 0); [right|left]; tauto).
+  apply box_loop_total; [reflexivity| |]; right.
+  - destruct (finite_max (fun j => face_scale dx dy dz v d j (enter_m d j)) (fun j => vnth d j <> 0) Pdec [0%nat; 1%nat; 2%nat])
+      as [Hn|(i & Hi & Pi & Hmax)]; [exfalso; apply (Hn k); [apply in_012; assumption|assumption]|].
+    exists (i, enter_m d i). split; [apply face_in_faces, in_012; assumption|].
+    apply entering_face_valid; try assumption. apply in_012; assumption.
+  - destruct (finite_max (fun j => - face_scale dx dy dz v d j (exit_m d j)) (fun j => vnth d j <> 0) Pdec [0%nat; 1%nat; 2%nat])
+      as [Hn|(i & Hi & Pi & Hmax)]; [exfalso; apply (Hn k); [apply in_012; assumption|assumption]|].
+    exists (i, exit_m d i). split; [apply face_in_faces, in_012; assumption|].
+    apply exiting_face_valid; try assumption. apply in_012; assumption.
+Qed.
+
+Lemma exit_points_box_lemma dx dy dz v d :
+  box_strictly_inside dx dy dz v -> (exists k, (k < 3)%nat /\ vnth d k <> 0) ->
+  exists en ex, box_exit_points dx dy dz v d = Some (en, ex) /\
+                good_point dx dy dz v d true en /\ good_point dx dy dz v d false ex.
+Proof.
+  intros Hin Hd. pose proof (exit_points_box_total_lemma dx dy dz v d Hin Hd) as T.
+  destruct (box_exit_points dx dy dz v d) as [[en ex]|] eqn:E; [|contradiction].
+  exists en, ex. split; [reflexivity|]. apply exit_points_box_sound_lemma; assumption.
+Qed.
